@@ -284,6 +284,14 @@ func GenProperty(w *Writer, prop string, t Tier, seed uint64) error {
 					Axis: "child", Test: Test{Kind: "any"}, Preds: []Expr{Call{Base: Ctx{}, Name: "lang", Args: []Expr{Lit{S: Pick(r, LangPool)}}}}}}}, 0
 			}},
 		})
+	case "C09":
+		return GenXmlFamily(w, r, t)
+	case "C10":
+		return GenStoreFamily(w, r, t)
+	case "C16":
+		return GenJsonFamily(w, r, t)
+	case "C17":
+		return GenHtmlFamily(w, r, t)
 	case "C18":
 		return runEvalPlans(w, r, t, []evalPlan{
 			{fam: "subq", doc: docDefault, gen: func(g *ExprGen, d *Doc, r *Rng) (Expr, int) {
